@@ -185,7 +185,7 @@ func c06Run(c *core.Ctx, scn stopScn, h *hist.History, l *hist.Layout, tables []
 	// return and its Error() call (a deferred cancel): what ended the stream
 	// does not change by that
 	lateCancel := (scn.Hist+spec.At+2*scn.Rep)%3 == 1 && !strings.Contains(spec.Kind, "cancel")
-	ob := runStop(c, s, l, start, scn, attemptOpts{ErrorCalls: 1, Leftovers: !errFirst, ErrorFirst: errFirst, InlineError: errFirst && !lateCancel, CancelBeforeError: lateCancel}, r)
+	ob := runStop(c, s, l, start, scn, attemptOpts{ErrorCalls: 2, Leftovers: !errFirst, ErrorFirst: errFirst, InlineError: errFirst && !lateCancel, CancelBeforeError: lateCancel}, r)
 	res := ob.Res
 	c.Case(core.HashAdd(layoutHash(l), []byte(fmt.Sprint(scn.Spec, scn.Rep))), ob.reached())
 	if res.Verdict != run.Returned {
@@ -265,6 +265,14 @@ func c06Run(c *core.Ctx, scn stopScn, h *hist.History, l *hist.Layout, tables []
 			return
 		}
 		c.Cell("err-message-carried")
+	}
+	// (iv) asked again, Error() must not turn a reported failure into a clean end
+	if streamErr == nil && errErr != nil && ob.Err2 != nil && ob.Err2.Verdict == run.Returned && ob.Err2.Err == nil && !lateCancel {
+		switch cls {
+		case "master-err", "transport":
+			c.Violation("c06:second-error-call-forgets:"+cls, fmt.Sprintf("%s: stream ended by %s, Stream returned nil, the first Error() reported %q, the second Error() reports a clean end", spec, cls, errErr.Error()), wit())
+			return
+		}
 	}
 	if c.WantSample() {
 		c.Sample(map[string]interface{}{"scenario": scn, "stream": errStr(streamErr), "error": errStr(errErr)})
